@@ -581,20 +581,22 @@ class ChirpZTransformExecutor:
 
 def _prepare_czt_basis(N, M, K, shift, alpha, dtype, norm=False):
     m = fftrange(M, dtype=dtype)
+    n = fftrange(N, dtype=dtype)
     if shift != 0:
-        m += shift
+        # same convention as the matrix DFT: the shift is subtracted from both coordinate vectors;
+        # 2(n-s)(m-s) = (n-s)^2 + (m-s)^2 - (m-n)^2, so the convolution kernel h does not depend on it
+        m -= shift
+        n -= shift
 
     prefix = -1j * np.pi
     a = np.exp(prefix * m*m * alpha)
-
-    n = fftrange(N, dtype=dtype)
     b = np.exp(prefix * n*n * alpha)
 
     # maybe can replace with empty for minor performance gains?
     h = np.zeros(K, dtype=dtype)
 
     # need to populate h piecewise, see Jurling2014 48c, 48d
-    start = -(N//2 - M//2) + shift  # lag between the origin samples (n//2) of the input and output grids
+    start = -(N//2 - M//2)  # lag between the origin samples (n//2) of the input and output grids
     j = np.arange(-start, -start+M, dtype=dtype)  # do not need a "-1" because arange is naturally end-exclusive
     # j is an index variable
     h[:M] = np.pi * (j * j)
